@@ -11,6 +11,7 @@ void register_c20();
 void register_io();
 void register_c14();
 void register_c12();
+void register_c19();
 void register_all_properties() {
   static bool done = false;
   if (done) return;
@@ -25,5 +26,6 @@ void register_all_properties() {
   register_io();
   register_c14();
   register_c12();
+  register_c19();
 }
 }
